@@ -195,6 +195,21 @@ int EGLPNUM_TYPENAME_ILLbasis_load (
 				rval = 1;
 				goto CLEANUP;
 			}
+			/* the bounds may have been changed since the basis was stored: a
+			 * nonbasic column has to sit on a finite bound when it has one */
+			if (lp->vstat[j] == STAT_LOWER &&
+					EGLPNUM_TYPENAME_EGlpNumIsEqqual (lp->O->lower[j], EGLPNUM_TYPENAME_NINFTY))
+				lp->vstat[j] = STAT_ZERO;
+			if (lp->vstat[j] == STAT_UPPER &&
+					EGLPNUM_TYPENAME_EGlpNumIsEqqual (lp->O->upper[j], EGLPNUM_TYPENAME_INFTY))
+				lp->vstat[j] = STAT_ZERO;
+			if (lp->vstat[j] == STAT_ZERO)
+			{
+				if (EGLPNUM_TYPENAME_EGlpNumIsNeqq (lp->O->lower[j], EGLPNUM_TYPENAME_NINFTY))
+					lp->vstat[j] = STAT_LOWER;
+				else if (EGLPNUM_TYPENAME_EGlpNumIsNeqq (lp->O->upper[j], EGLPNUM_TYPENAME_INFTY))
+					lp->vstat[j] = STAT_UPPER;
+			}
 		}
 	}
 
